@@ -466,9 +466,13 @@ class CGen:
         self.out = []
         self.gnames = {}
 
+    LIBC = {'bcmp', 'memcmp', 'strlen', 'memchr', 'memrchr'}
+
     def cname(self, sym):
         s = sym[1:]
         if s.startswith('"'): s = s[1:-1]
+        if s in self.LIBC:
+            return 'vf_libc_' + s   # C models in the prelude; the names must not collide with <string.h>
         s = re.sub(r'[^A-Za-z0-9_]', lambda m: '_%02x' % ord(m.group()), s)
         return 'g_' + s if not re.match(r'[A-Za-z_]', s) else s
 
